@@ -140,7 +140,15 @@ public:
         return id;
     }
 
+    // canonical spelling (typedefs and sugar resolved): what rules match on
     int T(QualType Q) {
+        if (Q.isNull()) {
+            return S.get("");
+        }
+        return S.get(Q.getCanonicalType().getAsString(PP));
+    }
+    // spelling as written (for reports)
+    int TS(QualType Q) {
         if (Q.isNull()) {
             return S.get("");
         }
@@ -231,6 +239,24 @@ public:
             return "";
         }
         return Buf.str().str();
+    }
+
+    json::Array classTargs(const CXXRecordDecl* RD) {
+        json::Array A;
+        if (const auto* Spec = dyn_cast<ClassTemplateSpecializationDecl>(RD)) {
+            for (const auto& Arg : Spec->getTemplateArgs().asArray()) {
+                std::string s;
+                if (Arg.getKind() == TemplateArgument::Type) {
+                    s = Arg.getAsType().getCanonicalType().getAsString(PP);
+                } else {
+                    llvm::raw_string_ostream os(s);
+                    Arg.print(PP, os, true);
+                    os.flush();
+                }
+                A.push_back(s);
+            }
+        }
+        return A;
     }
 
     void loc(json::Object& O, SourceLocation L) {
@@ -420,6 +446,9 @@ public:
             if (CCE->isElidable()) {
                 O["elidable"] = 1;
             }
+            if (CCE->getConstructor()->isCopyOrMoveConstructor()) {
+                O["copymove"] = 1;
+            }
             if (isa<CXXTemporaryObjectExpr>(CCE)) {
                 O["temp"] = 1;
             }
@@ -540,7 +569,7 @@ public:
         } else if (const auto* ECE = dyn_cast<ExplicitCastExpr>(St)) {
             O["k"] = "cast";
             O["ck"] = ECE->getCastKindName();
-            O["to"] = T(ECE->getTypeAsWritten());
+            O["to"] = TS(ECE->getTypeAsWritten());
             O["toC"] = CT(ECE->getTypeAsWritten());
             O["sub"] = child(ECE->getSubExpr());
         } else if (const auto* PE = dyn_cast<ParenExpr>(St)) {
@@ -630,7 +659,7 @@ public:
                     json::Object V;
                     V["d"] = declId(VD);
                     V["name"] = VD->getName().str();
-                    V["t"] = T(VD->getType());
+                    V["t"] = TS(VD->getType());
                     V["tC"] = CT(VD->getType());
                     if (VD->isStaticLocal()) {
                         V["static"] = 1;
@@ -838,7 +867,8 @@ public:
         F["line"] = lineOf(FD->getLocation());
         F["bline"] = lineOf(B);
         F["eline"] = lineOf(FD->getEndLoc());
-        F["ret"] = T(FD->getReturnType());
+        F["ret"] = TS(FD->getReturnType());
+        F["retC"] = T(FD->getReturnType());
         const FunctionDecl* Pat = FD->getTemplateInstantiationPattern();
         if (Pat) {
             SourceLocation PL = SM.getExpansionLoc(Pat->getLocation());
@@ -852,6 +882,7 @@ public:
             const CXXRecordDecl* P = MD->getParent();
             F["cls"] = S.get(plainQName(P));
             F["clsT"] = T(Ctx.getRecordType(P));
+            F["clsTargs"] = classTargs(P);
             if (P->isLambda()) {
                 F["lambda"] = 1;
                 if (const auto* Outer = dyn_cast_or_null<FunctionDecl>(P->getParentFunctionOrMethod())) {
@@ -908,7 +939,7 @@ public:
             json::Object PO;
             PO["d"] = declId(P);
             PO["name"] = P->getName().str();
-            PO["t"] = T(P->getType());
+            PO["t"] = TS(P->getType());
             PO["tC"] = CT(P->getType());
             Ps.push_back(std::move(PO));
         }
@@ -959,7 +990,7 @@ public:
         BO.AddInitializers = true;
         BO.AddTemporaryDtors = false;
         BO.AddEHEdges = false;
-        BO.PruneTriviallyFalseEdges = false;
+        BO.PruneTriviallyFalseEdges = true;
         std::unique_ptr<CFG> G = CFG::buildCFG(FD, const_cast<Stmt*>(Body), &Ctx, BO);
         if (!G) {
             F["nocfg"] = 1;
@@ -1062,9 +1093,6 @@ public:
             json::Array Succs;
             for (auto SI = B->succ_begin(); SI != B->succ_end(); ++SI) {
                 const CFGBlock* SB = SI->getReachableBlock();
-                if (!SB) {
-                    SB = SI->getPossiblyUnreachableBlock();
-                }
                 if (SB) {
                     Succs.push_back(SB->getBlockID());
                 } else {
@@ -1154,7 +1182,11 @@ public:
         if (!RD->isThisDeclarationADefinition() || !RD->isCompleteDefinition()) {
             return true;
         }
-        if (!inRoots(RD->getLocation())) {
+        SourceLocation RLoc = RD->getLocation();
+        if (const CXXRecordDecl* Pat = RD->getTemplateInstantiationPattern()) {
+            RLoc = Pat->getLocation();
+        }
+        if (!inRoots(RLoc)) {
             return true;
         }
         if (RD->isDependentContext() || RD->isLambda()) {
@@ -1166,10 +1198,11 @@ public:
         json::Object R;
         R["q"] = S.get(plainQName(RD));
         R["full"] = T(Ctx.getRecordType(RD));
-        R["file"] = S.get(fileOf(RD->getLocation()));
-        R["line"] = lineOf(RD->getLocation());
+        R["file"] = S.get(fileOf(RLoc));
+        R["line"] = lineOf(RLoc);
         if (isa<ClassTemplateSpecializationDecl>(RD)) {
             R["inst"] = 1;
+            R["targs"] = classTargs(RD);
         }
         json::Array Bases;
         for (const auto& B : RD->bases()) {
@@ -1193,7 +1226,7 @@ public:
             FO["name"] = FDl->getName().str();
             FO["q"] = S.get(plainQName(FDl));
             FO["d"] = declId(FDl);
-            FO["t"] = T(FDl->getType());
+            FO["t"] = TS(FDl->getType());
             FO["tC"] = CT(FDl->getType());
             FO["idx"] = FDl->getFieldIndex();
             FO["l"] = lineOf(FDl->getLocation());
